@@ -144,6 +144,7 @@ func TestAsyncModelAgainstNode(t *testing.T) {
 		sb.WriteString(gm.Prelude())
 		// the job queue drains between macrotasks: every step is its own setImmediate
 		sb.WriteString(`var out = [], work = [];
+process.on("unhandledRejection", function() {});
 function drainThen(f) { setImmediate(f); }
 function runOne(def, h, batch, done) {
 	var logs = [];
